@@ -3,6 +3,7 @@ import likestream
 import userlike
 import tempchains
 import strlits
+import usercmp
 import semprops
 
 
@@ -22,6 +23,7 @@ def run(res):
     failing += userlike.run(res, "complete")
     failing += tempchains.run(res)
     failing += strlits.run(res)
+    failing += usercmp.run(res)
     semprops.finish(res, "C02", cases, bad, sem_dis, na, nc, failing, matching,
                     "the shared semantic corpus (see C01); fields are listed in shuffled order, repeated, omitted under `..`; empty "
                     "collections, boundary values, sets needing backtracking; non-trivial = triples the specification says match",
@@ -30,6 +32,8 @@ def run(res):
 
 def replay(res, path):
     import json
+    if json.load(open(path)).get("usercmp_program"):
+        return usercmp.replay(json.load(open(path)))
     if json.load(open(path)).get("strlit_program"):
         return strlits.replay(json.load(open(path)))
     if json.load(open(path)).get("temp_chain_program"):
